@@ -95,6 +95,10 @@ int cycle::modify(unsigned dim, const ::mpt::value &val, const valdest *vd)
 	} else {
 		--nc;
 	}
+	// stages may be shared with a clone
+	if (!_stages.detach()) {
+		return BadOperation;
+	}
 	stage *st;
 	if (!(st = _stages.get(nc))) {
 		if (_flags & LimitStages) {
@@ -171,11 +175,12 @@ const MPT_STRUCT(value_store) *cycle::values(unsigned dim, int nc) const
 	if (nc < 0) {
 		nc = _act;
 	}
-	stage *st;
+	const stage *st;
 	if (!(st = _stages.get(nc))) {
 		return 0;
 	}
-	return st->rawdata_stage::values(dim);
+	// no change of (possibly shared) stage data by query
+	return st->rawdata_stage::values().nth(dim);
 }
 int cycle::advance()
 {
